@@ -108,8 +108,10 @@ func (vm *VM) errIndexOutOfRange() runtimeError {
 func (vm *VM) newPanic(msg any) *PanicError {
 	p := &PanicError{message: msg}
 	if vm.fn != nil {
-		p.path = vm.fn.InstructionInfo[vm.pc].Path
-		p.position = vm.fn.InstructionInfo[vm.pc].Position
+		// vm.pc is the address of the next instruction.
+		info := vm.fn.InstructionInfo[vm.pc-1]
+		p.path = info.Path
+		p.position = info.Position
 	}
 	return p
 }
